@@ -310,6 +310,103 @@ def _floatkey(ctx, cfg, prog):
     ctx.floor('GridKey Eq / Hash implementations', 2, len([q for q in grid if prog.bodies[q].kind != 'closure']), cfg)
 
 
+DT_ADT = 'core::delaunay_triangulation::DelaunayTriangulation'
+TDS_EMPTY = 'core::triangulation_data_structure::Tds::empty'
+
+
+def _none_only(b, local, depth=0):
+    """Every definition of `local` is Option::None (or a copy of such a local)."""
+    defs = b.defs.get(local, [])
+    if not defs or depth > 4:
+        return False
+    for (bb, idx, node) in defs:
+        if idx == 'term':
+            return False
+        rv = node.rv
+        if rv.k == 'agg' and rv.raw.get('ak') == 'adt' and rv.raw.get('adt') == 'std::option::Option' and rv.raw.get('variant') == 'None':
+            continue
+        if rv.k == 'use' and rv.ops and rv.ops[0].place is not None and rv.ops[0].place.is_local() and \
+                _none_only(b, rv.ops[0].place.local, depth + 1):
+            continue
+        return False
+    return True
+
+
+def _ctoridx(ctx, cfg, prog, mod):
+    """CTORIDX: a DelaunayTriangulation value that is *given* a Tds (constructors, from_tds, rebuild candidates) starts
+    with no duplicate index (`None` = "seed lazily from the Tds") unless the Tds is the empty one: an index that is
+    `Some` but was not filled from that Tds answers "no duplicate" for every stored vertex.
+      (a) every `DelaunayTriangulation { .. }` aggregate has `spatial_index: None`, or its Tds comes from `Tds::empty()`;
+      (b) a by-value DelaunayTriangulation local whose `tri` / `tri.tds` is assigned afterwards gets
+          `spatial_index = None` on every path from that assignment to a return."""
+    import valueflow
+    ctx.rule('CTORIDX', 'a triangulation value handed a Tds starts without a duplicate index unless the Tds is empty')
+    n_agg = 0
+    for q, b in sorted(prog.bodies.items()):
+        if '::tests::' in q or not b.file.startswith('src/'):
+            continue
+        al = None
+        for blk in b.blocks:
+            if blk.cleanup:
+                continue
+            for s_ in blk.stmts:
+                if s_.kind != 'A':
+                    continue
+                rv = s_.rv
+                if rv.k == 'agg' and rv.raw.get('ak') == 'adt' and rv.raw.get('adt') == DT_ADT:
+                    n_agg += 1
+                    fields = rv.raw.get('fields', [])
+                    ops = dict(zip(fields, rv.ops))
+                    io, to = ops.get('spatial_index'), ops.get('tri')
+                    none = io is not None and io.place is not None and io.place.is_local() and _none_only(b, io.place.local)
+                    empty = together = False
+                    if not none and to is not None and to.place is not None:
+                        al = al or mod.aliases(q)
+                        empty = any(x[0] == 'call' and (x[1].resolved or x[1].callee) == TDS_EMPTY
+                                    for x in valueflow.deep_sources(prog, mod, b, to.place.local, depth=3))
+                        if not empty and io is not None and io.place is not None:
+                            # both copied from the same existing triangulation (Clone): index and Tds arrive together
+                            ti = {x[1][0] for x in valueflow.sources(b, al, to.place.local) if x[0] == 'place' and x[1][1][:1] == ('tri',)}
+                            ii = {x[1][0] for x in valueflow.sources(b, al, io.place.local) if x[0] == 'place' and x[1][1][:1] == ('spatial_index',)}
+                            together = bool(ti & ii)
+                    ctx.ob('CTORIDX', '%s|aggregate' % (b.root or q), cfg, none or empty or together,
+                           'spatial_index is None' if none else 'index present, Tds comes from Tds::empty()' if empty else
+                           'index and Tds are copied from the same triangulation' if together else
+                           'the value is built with a duplicate index that is not None around a Tds that is not Tds::empty(): the '
+                           'index does not know the stored vertices, so near-duplicates of them are accepted',
+                           site='%s:%d' % (b.file, s_.line))
+                    continue
+                # (b) assignment into a by-value DelaunayTriangulation local
+                pl = s_.place
+                if pl.is_local() or not b.locals[pl.local].startswith(DT_ADT + '<'):
+                    continue
+                fields = [p_ for p_ in pl.proj if isinstance(p_, str) and p_.startswith('.')]
+                names = [f[1:] for f in fields]
+                if any(p_ == '*' for p_ in pl.proj) or not names or names[0] != 'tri' or (len(names) > 1 and names[1] != 'tds') or len(names) > 2:
+                    continue
+                loc = pl.local
+                # blocks that reset the index of the same local to None
+                resets = set()
+                for blk2 in b.blocks:
+                    for s2 in blk2.stmts:
+                        if s2.kind == 'A' and s2.place.local == loc and not s2.place.is_local() and \
+                                [p_ for p_ in s2.place.proj] == ['.spatial_index'] and s2.rv.k in ('agg', 'use'):
+                            if (s2.rv.k == 'agg' and s2.rv.raw.get('variant') == 'None') or \
+                                    (s2.rv.k == 'use' and s2.rv.ops and s2.rv.ops[0].place is not None and
+                                     s2.rv.ops[0].place.is_local() and _none_only(b, s2.rv.ops[0].place.local)):
+                                resets.add(blk2.idx)
+                reach = flow.reach_edges(b, b.succs(blk.idx), avoid_blocks=resets) | ({blk.idx} - resets)
+                rets = [x for x in reach if b.blocks[x].term.k == 'ret']
+                ok = not rets or blk.idx in resets
+                ctx.ob('CTORIDX', '%s|assign' % (b.root or q), cfg, ok,
+                       'a Tds is assigned into a DelaunayTriangulation value; %s' % (
+                           'its duplicate index is reset to None on every path to the return' if ok else
+                           'its duplicate index is not reset to None afterwards: an index inherited from the value\'s previous (empty) '
+                           'state does not know the vertices of the new Tds, so near-duplicates of them are accepted'),
+                       site='%s:%d' % (b.file, s_.line))
+    ctx.floor('DelaunayTriangulation aggregates', 6, n_agg, cfg)
+
+
 def _seedall(ctx, cfg, prog, mod):
     """Bulk (re)seeding sites: a body that calls both Tds::vertices and HashGridIndex::insert_vertex in one loop."""
     import loops
@@ -390,6 +487,7 @@ def run(ctx):
         mod = ctx.mod(cfg)
         _seedall(ctx, cfg, prog, mod)
         _floatkey(ctx, cfg, prog)
+        _ctoridx(ctx, cfg, prog, mod)
         res = pair.Resources(prog, mod)
         E = dt_entries(prog, res)
         ctx.floor('exported &mut DelaunayTriangulation operations', 14, len(E), cfg)
